@@ -427,7 +427,10 @@ impl SharedFail {
         let k = st.call;
         st.call += 1;
         if st.hard.contains(&k) {
-            return Err(io::Error::new(io::ErrorKind::BrokenPipe, "scripted"));
+            // the kind of a hard error must not matter (alternate: a formatter that retries "transient" kinds would
+            // deliver the failed entry's record after all)
+            let kind = [io::ErrorKind::BrokenPipe, io::ErrorKind::WouldBlock, io::ErrorKind::TimedOut][k % 3];
+            return Err(io::Error::new(kind, "scripted"));
         }
         if st.zero.contains(&k) {
             return Ok(0);
